@@ -1,5 +1,5 @@
 (* C15 — Shared proxy state is free of data races.  Statements only. *)
-From Reservoir Require Import Base.Prelude Model.Sync Model.Race Model.RaceTable Model.Lockset Proofs.Race Proofs.RaceTable.
+From Reservoir Require Import Base.Prelude Model.Sync Model.Race Model.RaceTable Model.Lockset Model.Discipline Model.Inventory Proofs.Race Proofs.RaceTable Proofs.Discipline.
 
 (* Lockset discipline => race freedom: ANY number of threads, EVERY schedule.
    [guarded G [] p]: every plain read of a location x in p happens while holding G x, every
@@ -10,6 +10,21 @@ Theorem C15_lockset_sound : forall G ps sched s',
   rrun (rspawn ps) sched = Some s' -> has_race s' = false.
 Proof. exact lockset_sound. Qed.
 Print Assumptions C15_lockset_sound.
+
+(* The three-way sharing discipline of the shared-state inventory: every location is lock-guarded, or never
+   written once the threads run, or confined to one thread.  ANY number of threads, EVERY schedule: no race.
+   (C15_lockset_sound is the special case in which every location is guarded: C15_guarded_is_disciplined.) *)
+Theorem C15_discipline_sound : forall C ps sched s',
+  disc_all C 0%nat ps = true ->
+  rrun (rspawn ps) sched = Some s' -> has_race s' = false.
+Proof. exact discipline_sound. Qed.
+Print Assumptions C15_discipline_sound.
+
+Theorem C15_guarded_is_disciplined : forall G C me,
+  (forall x g, G x = Some g -> C x = CGuard g) ->
+  forall p h, guarded G h p = true -> disc C me h p = true.
+Proof. exact guarded_disc. Qed.
+Print Assumptions C15_guarded_is_disciplined.
 
 (* Every operation of the access table obeys the discipline, for EVERY key -> shard map
    (every shard count, every hash) and every key / victim list. *)
@@ -61,3 +76,27 @@ Example ex_access_ok :
   access_ok (fun _ => SMu) (mk_access 0 true [(SMu, AR)]) = false /\
   access_ok (fun _ => SMu) (mk_access 0 false [(SShard 1, AW)]) = false.
 Proof. repeat split; reflexivity. Qed.
+
+(* ------------------------------------------------------------------ *)
+(* The discipline discriminates: a reader and a writer of a read-only location race, and the writer is rejected;
+   two threads may both read it; a confined location may be written by its owner only. *)
+Definition Cx : loc -> lclass := fun x => match x with O => CReadOnly | S O => COwner 1%nat | _ => CGuard Mu end.
+Example ex_readonly_two_readers : disc_all Cx 0%nat [RAcc 0%nat false RDone; RAcc 0%nat false (RAcc 1%nat true RDone)] = true.
+Proof. vm_compute. reflexivity. Qed.
+Example ex_readonly_writer_rejected : disc_all Cx 0%nat [RAcc 0%nat false RDone; RAcc 0%nat true RDone] = false.
+Proof. vm_compute. reflexivity. Qed.
+Example ex_readonly_writer_races : has_race (rspawn [RAcc 0%nat false RDone; RAcc 0%nat true RDone]) = true.
+Proof. vm_compute. reflexivity. Qed.
+Example ex_confined_foreign_rejected : disc_all Cx 0%nat [RAcc 1%nat true RDone; RAcc 1%nat true RDone] = false.
+Proof. vm_compute. reflexivity. Qed.
+
+(* The inventory classifier: a field without post-publication writes is fine; a plain counter bumped in Get is not;
+   the map of the memory backend is accepted because the lockset tables decide its accesses. *)
+From Coq Require Import String.
+Open Scope string_scope.
+Example ex_inventory_classifier :
+  unclassified [ mk_loc "cache.MemoryCache.locks" false [];
+                 mk_loc "cache.MemoryCache.hits" false [mk_w "cache:MemoryCache.Get" WSlot];
+                 mk_loc "cache.MemoryCache.entries" false [mk_w "cache:MemoryCache.cacheInternal" WElem] ]
+  = ["cache.MemoryCache.hits"].
+Proof. vm_compute. reflexivity. Qed.
